@@ -279,7 +279,7 @@ func c23multi(r *vh.Run, syms []string, m int, ag *c23agree, parse bool) {
 			// the same parameters hand-encoded must be refused by the parser
 			raw := c23rawMulti(keys, m, n)
 			if info, perr := program.GetProgramInfo(raw); perr == nil {
-				r.Violationf("multi:parser-accepts-invalid:"+shape, c23case{Keys: syms, M: m, Script: vh.Hex(raw)},
+				r.Violationf("multi:parser-accepts-invalid:"+shape, c23case{Keys: syms, M: m, Script: fmt.Sprintf("%x", raw)},
 					"GetProgramInfo accepted a hand-built %d-of-%d script (M=%d, %d keys)", m, n, info.M, len(info.PubKeys))
 			}
 			if err != nil && aerr != nil {
@@ -367,7 +367,7 @@ func c23parse(r *vh.Run, acc map[string]int64, script []byte, origin string) {
 	var err error
 	p := vh.Catch(func() { info, err = program.GetProgramInfo(script) })
 	if p != "" {
-		r.Violationf("parse:panic:"+origin, c23case{Script: vh.Hex(script)}, "GetProgramInfo(%x) panicked: %s", script, p)
+		r.Violationf("parse:panic:"+origin, c23case{Script: fmt.Sprintf("%x", script)}, "GetProgramInfo(%x) panicked: %s", script, p)
 		return
 	}
 	if err != nil {
@@ -378,14 +378,14 @@ func c23parse(r *vh.Run, acc map[string]int64, script []byte, origin string) {
 	last := script[len(script)-1]
 	okParams := (last == c23CHECKSIG && n == 1 && m == 1) || (last == c23CHECKMULTISIG && 1 <= m && m <= n && n > 1 && n <= c23MaxKeys)
 	if !okParams {
-		r.Violationf("parse:accepts-invalid-params:"+origin, c23case{Script: vh.Hex(script)}, "GetProgramInfo(%x) accepted M=%d with %d keys", script, m, n)
+		r.Violationf("parse:accepts-invalid-params:"+origin, c23case{Script: fmt.Sprintf("%x", script)}, "GetProgramInfo(%x) accepted M=%d with %d keys", script, m, n)
 		return
 	}
 	offCurve := false
 	p = vh.Catch(func() {
 		for _, k := range info.PubKeys {
 			if k == nil {
-				r.Violationf("parse:nil-key:"+origin, c23case{Script: vh.Hex(script)}, "GetProgramInfo(%x) returned a nil key", script)
+				r.Violationf("parse:nil-key:"+origin, c23case{Script: fmt.Sprintf("%x", script)}, "GetProgramInfo(%x) returned a nil key", script)
 				return
 			}
 			if !c23onCurve(k) {
@@ -400,22 +400,22 @@ func c23parse(r *vh.Run, acc map[string]int64, script []byte, origin string) {
 		if n == 1 {
 			back, err := program.GetProgramInfo(program.ProgramFromPubKey(info.PubKeys[0]))
 			if err != nil || len(back.PubKeys) != 1 || c23ser(back.PubKeys[0]) != c23ser(info.PubKeys[0]) {
-				r.Violationf("parse:not-a-fixed-point:"+origin, c23case{Script: vh.Hex(script)}, "key parsed from %x does not survive build->parse (%v)", script, err)
+				r.Violationf("parse:not-a-fixed-point:"+origin, c23case{Script: fmt.Sprintf("%x", script)}, "key parsed from %x does not survive build->parse (%v)", script, err)
 			}
 			return
 		}
 		prog, err := program.ProgramFromMultiPubKey(append([]keypair.PublicKey{}, info.PubKeys...), m)
 		if err != nil {
-			r.Violationf("parse:not-a-fixed-point:"+origin, c23case{Script: vh.Hex(script)}, "keys parsed from %x cannot be rebuilt: %v", script, err)
+			r.Violationf("parse:not-a-fixed-point:"+origin, c23case{Script: fmt.Sprintf("%x", script)}, "keys parsed from %x cannot be rebuilt: %v", script, err)
 			return
 		}
 		back, err := program.GetProgramInfo(prog)
 		if err != nil || int(back.M) != m || !c23same(c23infoKeys(back), c23expected(info.PubKeys)) {
-			r.Violationf("parse:not-a-fixed-point:"+origin, c23case{Script: vh.Hex(script)}, "keys parsed from %x do not survive build->parse (%v)", script, err)
+			r.Violationf("parse:not-a-fixed-point:"+origin, c23case{Script: fmt.Sprintf("%x", script)}, "keys parsed from %x do not survive build->parse (%v)", script, err)
 		}
 	})
 	if p != "" {
-		r.Violationf("parse:panic-after-accept:"+origin, c23case{Script: vh.Hex(script)}, "using the result of GetProgramInfo(%x) panicked: %s", script, p)
+		r.Violationf("parse:panic-after-accept:"+origin, c23case{Script: fmt.Sprintf("%x", script)}, "using the result of GetProgramInfo(%x) panicked: %s", script, p)
 		return
 	}
 	if offCurve {
@@ -521,7 +521,7 @@ func TestVerif_C23(t *testing.T) {
 				r.Eval(1)
 				raw := c23rawMulti(keys, 1, claim)
 				if info, err := program.GetProgramInfo(raw); err == nil {
-					r.Violationf("multi:parser-accepts-wrong-key-count", c23case{Script: vh.Hex(raw)}, "script with %d keys claiming n=%d accepted (M=%d, %d keys)", n, claim, info.M, len(info.PubKeys))
+					r.Violationf("multi:parser-accepts-wrong-key-count", c23case{Script: fmt.Sprintf("%x", raw)}, "script with %d keys claiming n=%d accepted (M=%d, %d keys)", n, claim, info.M, len(info.PubKeys))
 				} else {
 					r.Class("multi:rejected:claimed-n-differs")
 				}
@@ -530,7 +530,7 @@ func TestVerif_C23(t *testing.T) {
 				r.Eval(1)
 				raw := c23rawMulti(keys, m, n)
 				if _, err := program.GetProgramInfo(raw); err == nil {
-					r.Violationf("multi:parser-accepts-invalid:m>n", c23case{Script: vh.Hex(raw)}, "script with m=%d over %d keys accepted", m, n)
+					r.Violationf("multi:parser-accepts-invalid:m>n", c23case{Script: fmt.Sprintf("%x", raw)}, "script with m=%d over %d keys accepted", m, n)
 				} else {
 					r.Class("multi:rejected:m>n")
 				}
